@@ -235,6 +235,9 @@ def check(ctx: Ctx):
     from . import c03, c15
 
     c03._guarded(ctx, "R15.6", c15.check_state_writers)
+    # the lists that fix the layout of rows and tables (group names, metric keys) are not handed to functions
+    # that modify their list parameter in place (R15.6, through callees)
+    c03._guarded(ctx, "R15.6", c15.check_state_through_callees)
 
 
 _S = "panoptica/panoptica_statistics.py"
